@@ -1,7 +1,7 @@
 /-
   C07 (image part) — `Image::translate(d)` draws the same picture shifted by `d`, the bounding box
   shifts by `d`, and `translate_mut` leaves the value `translate` returns.
-  -- [V] image: `translate_mut` has the same effect as `translate` (mutation through `&mut self` is not modelled; `image_translate_mut` is definitional in the model): carried by correspondence + oracle only
+  -- [V] image, `translate_mut`: that Rust's `&mut self` field assignment is the functional field update of the model is language semantics, carried by the oracle only; PROVED on the model of the in-place body as the source writes it (EG/Model/TranslateMut.lean), for all inputs: `image_translate_mut_fields` (Props/C07/TranslateMut.lean: `self.offset += by` as two coordinate updates = `translate`); oracle class `C07:image-translate-mut`
 -/
 import EG.Lemmas.ImageRawImage
 namespace EG.C07
@@ -24,9 +24,10 @@ theorem image_translate_bounding_box (i : Image) (d : Pt) :
 
 /-- DEFINITIONAL (`rfl`): the model defines `Image.translateMut` and `Image.translate` by the same
 expression (`offset + by`, image/mod.rs `impl Transform`), so this states how the model was written;
-mutation through `&mut self` is not modelled. "`translate_mut` has the same effect as `translate`"
-for images is carried by the oracle on the real code (`C07:image-translate-mut`). Not to be counted
-as a proved sub-claim. -/
+the in-place body as the source writes it (`self.offset += by`) is modelled in
+EG/Model/TranslateMut.lean and proved equal to `translate` in Props/C07/TranslateMut.lean
+(`image_translate_mut_fields`); that a Rust `&mut` assignment is that field update is carried by the
+oracle on the real code (`C07:image-translate-mut`). -/
 theorem image_translate_mut (i : Image) (d : Pt) : i.translateMut d = i.translate d := rfl
 
 end EG.C07
